@@ -24,17 +24,17 @@ ROOT = os.path.dirname(os.path.dirname(os.path.abspath(__file__)))
 LIB = 'simprocesd/model'
 
 FILE_CHECKS = {
-    'simulation.py': ['C07', 'C01', 'C06', 'C13', 'C15'],
+    'simulation.py': ['C07', 'C01', 'C15', 'C06', 'C13', 'C14'],
     'system.py': ['C20', 'C14', 'C01', 'C16'],
-    'resource_manager.py': ['C09', 'C10', 'C11', 'C03', 'C15'],
+    'resource_manager.py': ['C09', 'C10', 'C15', 'C11', 'C03'],
     'factory_floor/asset.py': ['C16', 'C20'],
     'factory_floor/part.py': ['C08', 'C02'],
     'factory_floor/batch.py': ['C17', 'C16', 'C08'],
     'factory_floor/part_flow_controller.py': ['C08', 'C03', 'C02'],
     'factory_floor/part_handler.py': ['C02', 'C03', 'C06', 'C04', 'C08', 'C15'],
-    'factory_floor/part_processor.py': ['C13', 'C06', 'C11', 'C02', 'C03', 'C15'],
-    'factory_floor/buffer.py': ['C05', 'C03', 'C04', 'C15', 'C17'],
-    'factory_floor/source.py': ['C02', 'C06', 'C04', 'C16', 'C15', 'C03'],
+    'factory_floor/part_processor.py': ['C13', 'C06', 'C11', 'C15', 'C03', 'C02'],
+    'factory_floor/buffer.py': ['C05', 'C03', 'C15', 'C04', 'C17'],
+    'factory_floor/source.py': ['C02', 'C06', 'C03', 'C15', 'C16', 'C08', 'C04'],
     'factory_floor/sink.py': ['C02', 'C16', 'C06', 'C04', 'C08', 'C17'],
     'factory_floor/part_batcher.py': ['C17', 'C02', 'C03'],
     'factory_floor/group.py': ['C08', 'C02', 'C03'],
@@ -232,12 +232,33 @@ def main():
                 pass
     tasks = []
     if a.recheck:
+        import re
+        sites = {}
+
+        def site_of(rel, desc):
+            '''The library may have been repaired since the sweep: find today's site with the same description
+            (nearest line number) instead of trusting the old index.'''
+            if rel not in sites:
+                src = open(os.path.join('/repo', LIB, rel)).read()
+                n = count_sites(src)
+                sites[rel] = [(k, mutate(src, k)[1]) for k in range(n)]
+            m = re.match(r'L(\d+): (.*)', desc or '')
+            if not m:
+                return None
+            line, what = int(m.group(1)), m.group(2)
+            cands = [(abs(int(re.match(r'L(\d+)', d).group(1)) - line), k) for k, d in sites[rel]
+                     if d and re.match(r'L\d+: (.*)', d).group(1) == what]
+            return min(cands)[1] if cands else None
+
         for l in open(a.recheck):
             r = json.loads(l)
-            if r.get('status') == 'survives-suite' and not r.get('detected_by') and (r['file'], r['k']) not in done:
+            if r.get('status') == 'survives-suite' and not r.get('detected_by'):
+                k = site_of(r['file'], r.get('desc'))
+                if k is None or (r['file'], k) in done:
+                    continue
                 rest = FILE_CHECKS[r['file']][a.skip:]
                 if rest:
-                    tasks.append((r['file'], r['k'], a.procs, a.tier, rest))
+                    tasks.append((r['file'], k, a.procs, a.tier, rest))
         files = []
     for rel in files:
         n = count_sites(open(os.path.join('/repo', LIB, rel)).read())
